@@ -122,4 +122,11 @@ CHECKS["C07"] = {
   "design_ref": "DESIGN.md §5 C07",
   "note": "Header mode only at Connection level (the node never negotiates it). Hook-point granularity for the forced schedules; free-running concurrency otherwise.",
 }
+CHECKS["C06"] = {
+  "level": "model_checking",
+  "technique": "TLA+ model of the peer's frame stream (Gen_Recv.tla over the spec's writers Etf!Encode / DistHeader!MsgBytes / protocol fragmentation, with the sender's atom-cache state) sampled by TLC simulation; a scripted peer replays the frames over TCP with arbitrary segmentation into the real Connection; the surfaced results are compared with the model's",
+  "text": "Frame sequences (5 frames over 8 control-message kinds in pass-through, header-with-new-entries, header-referencing-earlier-entries and 2/3-fragment form, ticks, 6 malformed kinds at any position) are generated from the specification, written to the socket whole or in 1/5/13-byte pieces, and read with receive_message and receive_message_from_read_half: each complete message must be returned once, in order, with the control message and payload the peer sent; a malformed frame yields exactly one error and nothing else; ticks never surface; no panic.",
+  "design_ref": "DESIGN.md §5 C06",
+  "note": "Sampled (TLC -simulate), not exhaustive; real sockets, real time. Open finding C06-fragments matched by frame form (fragmented) + deviation (error / different message at the final fragment only).",
+}
 NOT_APPLICABLE = {}
